@@ -144,10 +144,12 @@ static ZSTDMT_bufferPool* ZSTDMT_createBufferPool(unsigned maxNbBuffers, ZSTD_cu
 /* only works at initialization, not during compression */
 static size_t ZSTDMT_sizeof_bufferPool(ZSTDMT_bufferPool* bufPool)
 {
-    size_t const poolSize = sizeof(*bufPool);
-    size_t const arraySize = bufPool->totalBuffers * sizeof(buffer_t);
+    size_t poolSize, arraySize;
     unsigned u;
     size_t totalBufferSize = 0;
+    if (bufPool == NULL) return 0;   /* a pool is NULL when a previous ZSTDMT_resize() failed after releasing it */
+    poolSize = sizeof(*bufPool);
+    arraySize = bufPool->totalBuffers * sizeof(buffer_t);
     ZSTD_pthread_mutex_lock(&bufPool->poolMutex);
     for (u=0; u<bufPool->totalBuffers; u++)
         totalBufferSize += bufPool->buffers[u].capacity;
@@ -418,6 +420,7 @@ static ZSTDMT_CCtxPool* ZSTDMT_expandCCtxPool(ZSTDMT_CCtxPool* srcPool,
 /* only works during initialization phase, not during compression */
 static size_t ZSTDMT_sizeof_CCtxPool(ZSTDMT_CCtxPool* cctxPool)
 {
+    if (cctxPool == NULL) return 0;   /* see ZSTDMT_sizeof_bufferPool() */
     ZSTD_pthread_mutex_lock(&cctxPool->poolMutex);
     {   unsigned const nbWorkers = cctxPool->totalCCtx;
         size_t const poolSize = sizeof(*cctxPool);
@@ -1075,6 +1078,7 @@ static size_t ZSTDMT_sizeof_jobBuffers(ZSTDMT_CCtx* mtctx)
 {
     size_t total = 0;
     unsigned u;
+    if (mtctx->jobs == NULL) return 0;   /* see ZSTDMT_sizeof_bufferPool() */
     for (u=0; u<=mtctx->jobIDMask; u++) {
         ZSTD_pthread_mutex_lock(&mtctx->jobs[u].job_mutex);
         total += mtctx->jobs[u].dstBuff.capacity;
@@ -1090,7 +1094,7 @@ size_t ZSTDMT_sizeof_CCtx(ZSTDMT_CCtx* mtctx)
             + POOL_sizeof(mtctx->factory)
             + ZSTDMT_sizeof_bufferPool(mtctx->bufPool)
             + ZSTDMT_sizeof_jobBuffers(mtctx)
-            + (mtctx->jobIDMask+1) * sizeof(ZSTDMT_jobDescription)
+            + (mtctx->jobs ? (mtctx->jobIDMask+1) * sizeof(ZSTDMT_jobDescription) : 0)
             + ZSTDMT_sizeof_CCtxPool(mtctx->cctxPool)
             + ZSTDMT_sizeof_seqPool(mtctx->seqPool)
             + ZSTD_sizeof_CDict(mtctx->cdictLocal)
